@@ -57,6 +57,9 @@ func (w *World) MakeBackingOf(d *vals.DT, start, n int) reflect.Value {
 }
 
 func (w *World) nextStart() int {
+	if w.free {
+		return w.ncells + 1
+	}
 	// cells are numbered in allocation order; the model's allocation table of the final state tells where
 	// the allocation made by this step starts
 	p := w.finalPost()
@@ -99,6 +102,9 @@ func opNew(w *World, st *Step) execResult {
 	}
 	opts = append(opts, w.engineOpt()...)
 	t := tensor.New(opts...)
+	if w.free {
+		w.ncells += n
+	}
 	return execResult{ret: t}
 }
 
@@ -106,14 +112,14 @@ func opNew(w *World, st *Step) execResult {
 func (w *World) noteLib() { w.backs = append(w.backs, reflect.Value{}) }
 
 func opAt(w *World, st *Step) execResult {
-	c := decodeInts(st.Op.A)
+	c := w.own("At coordinates", decodeInts(st.Op.A))
 	v, err := w.T(st.Op.H).At(c...)
 	return execResult{err: err, val: v, hasVal: err == nil}
 }
 
 func opSetAt(w *World, st *Step) execResult {
 	a := rawArgs(st)
-	c := decodeInts(a[0])
+	c := w.own("SetAt coordinates", decodeInts(a[0]))
 	j := decodeInt(a[1])
 	err := w.T(st.Op.H).SetAt(w.Cfg.Pal.Const(w.Cfg.D, j), c...)
 	return execResult{err: err}
@@ -389,7 +395,7 @@ func opSlice(w *World, st *Step) execResult {
 }
 
 func opT(w *World, st *Step) execResult {
-	p := decodeInts(st.Op.A)
+	p := w.own("T axes", decodeInts(st.Op.A))
 	return execResult{err: w.T(st.Op.H).T(p...)}
 }
 
@@ -403,7 +409,7 @@ func opTranspose(w *World, st *Step) execResult {
 }
 
 func opSafeT(w *World, st *Step) execResult {
-	p := decodeInts(st.Op.A)
+	p := w.own("SafeT axes", decodeInts(st.Op.A))
 	r, err := w.T(st.Op.H).SafeT(p...)
 	if err == nil {
 		w.noteLib()
@@ -483,7 +489,7 @@ func opUnsafeBinK(w *World, st *Step) execResult {
 }
 
 func opReshape(w *World, st *Step) execResult {
-	s := decodeInts(st.Op.A)
+	s := w.own("Reshape dims", decodeInts(st.Op.A))
 	return execResult{err: w.T(st.Op.H).Reshape(s...)}
 }
 
